@@ -147,6 +147,37 @@ theorem mixture_single (w m v : α) (hw : w ≠ 0) : mixtureMoments [[(w, m, v)]
 
 end Mix
 
+section ParamsStage
+variable {α : Type} [Field α] [DecidableEq α]
+
+/-- **A node's mixture prior depends only on its own `(T, k, span)` records**: the loop of
+`get_mixture_prior_params` with its small-mixture cache (keyed by `(total_tips, record bytes)`) returns,
+for every node, `paramsOf` of that node's records — whatever nodes were processed before it and in
+whatever order.  (A cache key without `total_tips` would break the invariant `CacheOK` this rests on.) -/
+theorem mixture_params_depend_only_on_own_records (approx : α → α → α × α) (table : Nat → Nat → α × α)
+    (nodes : List (NodeRecs α)) :
+    mixtureParams approx table nodes = nodes.map (paramsOf approx table) :=
+  mixtureParams_eq approx table nodes
+
+/-- Entry `i` of the result is determined by entry `i` of the input alone. -/
+theorem mixture_params_pointwise (approx : α → α → α × α) (table : Nat → Nat → α × α)
+    (nodes : List (NodeRecs α)) (i : Nat) :
+    (mixtureParams approx table nodes)[i]? = (nodes[i]?).map (paramsOf approx table) := by
+  rw [mixture_params_depend_only_on_own_records, List.getElem?_map]
+
+/-- The shortcut for a non-mixture node (take the table row's own parameters) agrees with the general
+rule (moment-match the mixture moments). -/
+theorem params_single_consistent (approx : α → α → α × α) (table : Nat → Nat → α × α) (T k : Nat) (w : α)
+    (hw : w ≠ 0) :
+    paramsOf approx table [(T, [(k, w)])]
+      = approx (mixtureMoments (groupsOf table [(T, [(k, w)])])).1
+          (mixtureMoments (groupsOf table [(T, [(k, w)])])).2 := by
+  have h := mixture_single w (table T k).1 (table T k).2 hw
+  simp only [paramsOf, groupsOf, List.map_cons, List.map_nil]
+  rw [h]
+
+end ParamsStage
+
 section MixOrd
 variable {α : Type} [Field α] [LinearOrder α] [IsStrictOrderedRing α]
 
@@ -179,6 +210,13 @@ example : bucket (accumulate 4 exFirst [([2, 3], exSecond)]).log 2 2 2 = 4
 loses the span: the hypothesis of `accumulate_eq_tally` is not redundant. -/
 example : bucket (accumulate 4 exFirst [([2], exSecond)]).log 3 2 2 = 0
     ∧ tally [exFirst, exSecond] 3 2 2 = 6 := by decide +kernel
+
+/-- Same `(k, span)` records under different sample totals give different priors when the tables differ:
+the reason `total_tips` belongs in the cache key. -/
+example : paramsOf (fun m v => (m, v)) (fun T k => ((T : ℚ), (k : ℚ))) [(4, [(2, 1), (3, 1)])]
+    ≠ paramsOf (fun m v => (m, v)) (fun T k => ((T : ℚ), (k : ℚ))) [(5, [(2, 1), (3, 1)])] := by
+  simp only [paramsOf, mixture_moments_spec, groupsOf]
+  norm_num [mixMean, mixVar, mixW]
 
 example : mixtureMoments [[((1 : ℚ), 2, 3)], [(3, 4, 5)]] = (7 / 2, 21 / 4) := by
   rw [mixture_moments_spec]
